@@ -25,6 +25,8 @@ type Conn struct {
 	readDeadline, writeDeadline time.Time
 
 	closing bool // Guard against Write calls once Close() is called.
+
+	pending []byte // Received data not yet returned by Read.
 }
 
 func newConn(p *Port, dstCall string, via ...string) *Conn {
@@ -168,6 +170,12 @@ func (c *Conn) Read(p []byte) (int, error) {
 		ctx, cancel = context.WithDeadline(ctx, c.readDeadline)
 		defer cancel()
 	}
+	// Data left over from a frame that did not fit the buffer of the previous call
+	if len(c.pending) > 0 {
+		n := copy(p, c.pending)
+		c.pending = c.pending[n:]
+		return n, nil
+	}
 	select {
 	case <-ctx.Done():
 		// TODO (read timeout error)
@@ -176,11 +184,9 @@ func (c *Conn) Read(p []byte) (int, error) {
 		if !ok {
 			return 0, io.EOF
 		}
-		if len(p) < len(f.Data) {
-			panic("buffer overflow")
-		}
-		copy(p, f.Data)
-		return len(f.Data), nil
+		n := copy(p, f.Data)
+		c.pending = f.Data[n:]
+		return n, nil
 	}
 }
 
